@@ -36,6 +36,7 @@ ObsMatchesNext(p) ==
     /\ \A w \in Waiters : /\ p.pend[w] = wpc'[w]
                           /\ p.resumes[w] = resumes'[w]
                           /\ p.seen[w].tag = seen'[w].tag /\ p.seen[w].payload = seen'[w].payload
+    /\ \A w \in WCb : p.cbnext[w] = nxt'[w]
     /\ p.allocs = 0
 
 TInit == Init /\ l = 1
